@@ -119,6 +119,7 @@ Section Reasm.
       clearbody c q'.
       replace (dur 0%Z) with 0%Z by reflexivity. rewrite !Z.add_0_r.
       destruct (Z.ltb_spec deadline (clock msg E w)) as [|_]; [lia|].
+      assert (Hlc : (length c =? 0)%nat = false) by (destruct c; [congruence|reflexivity]). rewrite Hlc.
       set (w1 := upd msg E w (Some j) (next msg E w) e' (clock msg E w) [EvRead msg j (RData c)]).
       set (a := fl (length R)) in *. set (R' := R ++ c).
       assert (Ha : (a <= length R)%nat) by apply fl_le.
